@@ -506,8 +506,11 @@ def apdu_judge(s, raw):
                 out.append(('apdu:cmd:size', 'apduCmdDec', 'value', 'size of the first (null output) and the second call differ or != sizeof + cdf_len'))
             elif not flags & 1:
                 forms = C.apdu_cmd_forms(s)
-                key = 'G8:apdu-cmd-non-shortest-form-accepted' if forms == ('ext', None) else 'apdu:cmd:non-shortest-form-accepted:Lc=%s,Le=%s' % forms
-                out.append((key, 'apduCmdDec', 'accepts',
+                key = 'apdu:cmd:non-shortest-form-accepted:Lc=%s,Le=%s' % forms
+                # ruling (coordinator): an extended Lc < 256 WITHOUT Le is admitted by apdu.h items 4-5 (no shortest-form rule is
+                # documented, APDU is not documented as canonical): not a violation of C08, recorded as an observation in run()
+                if forms != ('ext', None):
+                  out.append((key, 'apduCmdDec', 'accepts',
                             'accepted (cdf_len %d, rdf_len %d) but apduCmdEnc of the decoded command gives %d octets, not these %d (Lc/Le forms %s)' %
                             (cdf_len, rdf_len, enc_len, len(s), C.apdu_cmd_forms(s))))
     else:
@@ -1339,6 +1342,8 @@ def run(tier):
             chk.observe('%s: %s (%d cases)' % (key, msg[:300], n)); continue
         chk.outcome('finding ' + key, n)
         chk.violation(key, rec, full)
+    chk.observe('apduCmdDec accepts an extended Lc (00 xx yy) with a value < 256 when no Le follows (e.g. 00A4040C 000001 AA) although apduCmdEnc would use the short form; '
+                'apdu.h does not document a shortest-form rule for this case, so it is not counted (the decoder rejects the other non-shortest forms)')
     chk.assumptions += [
         'oracle = ref/codec.py (grammar of the public headers der.h, oid.h, apdu.h, hex.h, b64.h, dec.h) and ref/codec_st.py (ASN.1 structures parsed nested); gated by `--selftest` vectors',
         'a DER length equal to SIZE_MAX is treated as outside the implementation limit (codec.LEN_MAX = SIZE_MAX - 1): SIZE_MAX is the error value of every decoder; derTLEnc emitting 88 FF..FF is logged as an observation',
